@@ -375,7 +375,8 @@ void MatrixGetMaxValueIndex(matrix *m, size_t *row, size_t *col);
 void MatrixGetMinValueIndex(matrix *m, size_t *row, size_t *col);
 
 /**
- * Singular Value Decomposition local implementation
+ * Singular Value Decomposition: m = U S VT with U (row x k), S (k x k, diagonal),
+ * VT (k x col), k = min(row, col). Same decomposition as SVDlapack.
  */
 void SVD(matrix* m, matrix *U, matrix *S, matrix *VT);
 
